@@ -51,8 +51,51 @@ def analyse(src, rel, qualname, contracts, extra_helpers=None):
     helpers = tiny_helpers(src, rel)
     if extra_helpers:
         helpers.update(extra_helpers)
+    alts = contract.get('alternatives')
+    if not alts:
+        k = _run2(src, rel, qualname, contract, helpers)
+        return k
+    # the precondition is a disjunction: analyse once per alternative, keep the worst verdict per access
+    rank = {'PROVEN': 0, 'ASSUMED': 1, 'UNKNOWN': 2, 'REFUTED': 3}
+    first = None
+    for extra in alts:
+        c = dict(contract)
+        c['requires'] = list(contract.get('requires', [])) + list(extra)
+        c.pop('alternatives')
+        k = _run2(src, rel, qualname, c, helpers)
+        if first is None:
+            first = k
+        else:
+            for key, a in k.accesses.items():
+                o = first.accesses.get(key)
+                if o is None or rank[a.verdict] > rank[o.verdict]:
+                    first.accesses[key] = a
+            first.calls.extend(k.calls)
+    return first
+
+
+def _run2(src, rel, qualname, contract, helpers):
+    """Two passes: the first collects value bounds of every store into local integer arrays; if all stores
+    of an array share bounds, reads in the second pass get them (array content invariant)."""
     k = KernelS(src, rel, qualname, contract, helpers, module_consts(src, rel))
     k.run()
+    content = {}
+    for name, recs in k.content_out.items():
+        if not recs:
+            continue
+        lo = Lin.const(0) if all(r[0] for r in recs) else None
+        his = None
+        for _, h in recs:
+            hs = {repr(x): x for x in h}
+            his = hs if his is None else {kk: v for kk, v in his.items() if kk in hs}
+        hi = next(iter(his.values())) if his else None
+        if lo is not None or hi is not None:
+            content[name] = (lo, hi, f'every store into {name} has these bounds; each element is written before it is read (same block table in both passes)')
+    if content:
+        k2 = KernelS(src, rel, qualname, contract, helpers, module_consts(src, rel))
+        k2.content_in = content
+        k2.run()
+        k = k2
     finalize(k)
     return k
 
